@@ -4,38 +4,115 @@ An execution is `garden-verif verif nrepl-run` fed {script, prefix, horizon}: it
 always takes alternative 0, and prints the trace (every scheduling point with its alternatives and the choice),
 notes (dequeue events, sends) and the ordered response messages.
 
-Deviation cost of a non-default choice at a point:
-  * a "timer fires" alternative: 1
-  * switching away from a task that could have continued (a preemption; for a spinning task: not yielding, or
-    yielding to a task other than the default one): 1
-  * picking a different task when the running task is blocked or finished: 0 (free, all are explored)
+Deviation cost: every non-default choice costs 1, whether it is a "timer fires" alternative, a preemption of a
+task that could have continued, or picking another task than the lowest-numbered one when the running task is
+blocked or finished. (Making the last kind free, as CHESS does, multiplied the cost-0 level by the product of all
+forced switches of three to five tasks and left no budget for preemptions.) "Bound k" therefore means: every
+schedule that departs from the default policy in at most k places.
 """
-import concurrent.futures, heapq, json, os, subprocess, time
+import atexit, concurrent.futures, heapq, json, os, queue, select, subprocess, threading, time
 
 from .core import Machinery
 from .pool import NCPU
 
 
+class _Server:
+    """One `garden-verif verif nrepl-serve` fork server: a job line in, a result line out, each job in a forked child."""
+
+    def __init__(self, binary):
+        self.binary = binary
+        self.p = None
+
+    def start(self):
+        self.stop()
+        self.p = subprocess.Popen([self.binary, "verif", "nrepl-serve"], stdin=subprocess.PIPE, stdout=subprocess.PIPE, stderr=subprocess.DEVNULL)
+
+    def stop(self):
+        if self.p is not None:
+            try:
+                self.p.kill()
+                self.p.wait()
+            except Exception:
+                pass
+            self.p = None
+
+    def call(self, inp, timeout):
+        if self.p is None or self.p.poll() is not None:
+            self.start()
+        try:
+            self.p.stdin.write(inp.encode() + b"\n")
+            self.p.stdin.flush()
+        except (BrokenPipeError, OSError):
+            self.start()
+            return None, "server died"
+        fd = self.p.stdout.fileno()
+        buf = b""
+        deadline = time.time() + timeout
+        while not buf.endswith(b"\n"):
+            left = deadline - time.time()
+            if left <= 0:
+                self.start()
+                return None, "PROCESS-TIMEOUT"
+            r, _, _ = select.select([fd], [], [], left)
+            if not r:
+                continue
+            chunk = os.read(fd, 1 << 20)
+            if not chunk:
+                self.start()
+                return None, "server died"
+            buf += chunk
+        return buf, None
+
+
+_servers = {}
+_idle = None
+_lock = threading.Lock()
+
+
+def _get_server(binary):
+    global _idle
+    with _lock:
+        if _idle is None:
+            _idle = queue.Queue()
+        try:
+            return _idle.get_nowait()
+        except queue.Empty:
+            return _Server(binary)
+
+
+def shutdown_servers():
+    global _idle
+    with _lock:
+        if _idle is not None:
+            while True:
+                try:
+                    _idle.get_nowait().stop()
+                except queue.Empty:
+                    break
+
+
 def run_exec(binary, script, prefix, horizon, timeout=120):
+    """One execution of the real code under the controlled scheduler, in a child forked by a warm server process."""
     inp = json.dumps({"script": script, "prefix": prefix, "horizon": horizon})
+    srv = _get_server(binary)
+    if srv.binary != binary:
+        srv.stop()
+        srv = _Server(binary)
+    out, why = srv.call(inp, timeout)
+    if out is None:
+        srv.stop()
+        return {"end": why if why.startswith("PROCESS") else f"PROCESS-EXIT {why}", "trace": [], "notes": [], "responses": [], "tasks": []}
+    _idle.put(srv)
     try:
-        p = subprocess.run([binary, "verif", "nrepl-run"], input=inp.encode(), stdout=subprocess.PIPE, stderr=subprocess.PIPE, timeout=timeout)
-    except subprocess.TimeoutExpired:
-        return {"end": "PROCESS-TIMEOUT", "trace": [], "notes": [], "responses": [], "tasks": []}
-    if p.returncode != 0:
-        return {"end": f"PROCESS-EXIT {p.returncode}", "stderr": p.stderr.decode("utf-8", "replace")[-2000:], "trace": [], "notes": [], "responses": [], "tasks": []}
-    try:
-        return json.loads(p.stdout.decode())
+        return json.loads(out.decode())
     except ValueError:
-        return {"end": "BAD-OUTPUT", "stderr": p.stdout.decode("utf-8", "replace")[-500:], "trace": [], "notes": [], "responses": [], "tasks": []}
+        return {"end": "BAD-OUTPUT", "stderr": out.decode("utf-8", "replace")[-500:], "trace": [], "notes": [], "responses": [], "tasks": []}
 
 
 def alt_cost(point, alt_index):
     if alt_index == 0:
         return 0
-    if point["alts"][alt_index][2]:
-        return 1
-    return 1 if point["by_enabled"] else 0
+    return 1
 
 
 def canon(res):
@@ -54,6 +131,9 @@ def canon(res):
 def executed_ops(res):
     """[(trace index, task, label)] of the operation resumed at each point (the chosen alternative)."""
     return [(i, p["alts"][p["choice"]][0], p["alts"][p["choice"]][1], p["alts"][p["choice"]][2]) for i, p in enumerate(res["trace"])]
+
+
+atexit.register(shutdown_servers)
 
 
 class Explorer:
@@ -96,7 +176,7 @@ class Explorer:
                     self.by_cost[c] = self.by_cost.get(c, 0) + 1
                     end = res["end"].split(" ")[0]
                     self.ends[end] = self.ends.get(end, 0) + 1
-                    if end in ("PROCESS-TIMEOUT", "BAD-OUTPUT", "DIVERGED:") or end.startswith("PROCESS-EXIT"):
+                    if end in ("PROCESS-TIMEOUT", "BAD-OUTPUT", "DIVERGED:", "FORK-FAILED", "CHILD-STATUS") or end.startswith("PROCESS-EXIT"):
                         raise Machinery(f"execution failed for prefix {prefix}: {res['end']} {res.get('stderr', '')[:500]}")
                     trace = res["trace"]
                     self.points += len(trace)
